@@ -263,6 +263,17 @@ class Future(BaseFuture):
         else:
             return str(value)
 
+    @property
+    def value(self) -> Optional[int]:
+        """Get the value of the future.
+        If it's not set yet, `None` is returned."""
+        # Array entries can be changed by later subroutines (and array addresses are
+        # never re-used), so always look at the shared memory first.
+        value = self._try_get_value()
+        if value is not None:
+            return value
+        return self._value
+
     def _try_get_value(self) -> Optional[int]:
         if not isinstance(self._index, int):
             raise NonConstantIndexError("index is not constant and cannot be resolved")
@@ -513,6 +524,11 @@ class RegFuture(BaseFuture):
 
         if other_tmp_register is not None:
             self.builder._mem_mgr.remove_active_register(other_tmp_register)
+
+        # The register changes: return its new value to the Host and forget the old one.
+        if self.reg not in self.builder._mem_mgr.get_registers_to_return():
+            self.builder._mem_mgr.add_register_to_return(self.reg)
+        self._value = None
 
         self.builder.subrt_add_pending_commands(commands)
 
